@@ -164,8 +164,13 @@ def engine_roles(c, flavour, cache=False):
             self.payloads.append(payload)
 
     universe = sorted(set(c["graph"]) | {p for ps in c["graph"].values() for p in ps} | set(c["roles"] or []))
+    ref = {"attr": "subject.roles"}
+    # membership of one role, through each of the four operators of the property text in turn
+    # (theorems c18_has_any / c18_has_all / c18_contains / c18_in: all four decide `r in roles`)
+    forms = [lambda r: {"hasAny": [ref, [r]]}, lambda r: {"hasAll": [ref, [r]]},
+             lambda r: {"contains": [ref, r]}, lambda r: {"in": [r, ref]}]
     rules = [{"id": f"r{i}", "effect": "permit", "actions": [f"a{i}"], "resource": {"type": "doc"},
-              "condition": {"hasAny": [{"attr": "subject.roles"}, [r]]}} for i, r in enumerate(universe)]
+              "condition": forms[(i + len(universe)) % 4](r)} for i, r in enumerate(universe)]
     pol = {"algorithm": "deny-overrides", "rules": rules}
     sink = Sink()
     res = {"sync": SyncR, "async": AsyncR, "raising": RaisingR, "raising-async": AsyncRaisingR,
